@@ -77,11 +77,14 @@ func (d Doc) PBF() []byte {
 			if e.Inside {
 				lat = 0
 			}
-			units := int64(lat * 1e7) // granularity 100 nanodegrees
+			lon := lat
+			if e.Edge > 0 {
+				lat, lon = edgeCoord(e.Edge)
+			}
 			var dn []byte
 			dn = pbPackedSint(dn, 1, []int64{e.ID})
-			dn = pbPackedSint(dn, 8, []int64{units})
-			dn = pbPackedSint(dn, 9, []int64{units})
+			dn = pbPackedSint(dn, 8, []int64{int64(lat * 1e7)}) // granularity 100 nanodegrees
+			dn = pbPackedSint(dn, 9, []int64{int64(lon * 1e7)})
 			dn = pbPackedUint(dn, 10, []uint64{1, 2, 0}) // keys_vals: (key, value), end of node
 			grp = pbBytes(grp, 2, dn)                    // PrimitiveGroup.dense
 		case 'w':
